@@ -45,18 +45,22 @@ structure Ts where
 deriving DecidableEq, Repr, Inhabited
 
 /-- the instant a client timestamp names: seconds + nanos / 1e9 with the nanoseconds brought into [0, 1e9), whatever the
-    nanos field holds (an int32; nothing refuses a timestamp that is not normalised); the seconds saturate at the ends of
-    the int64 range instead of wrapping (`instant` in modules/vikja/state.go) -/
-def Ts.instant (t : Ts) : Int × Int :=
+    nanos field holds (an int32; nothing refuses a timestamp that is not normalised).  Exact: the integers here are
+    unbounded; `instant` in modules/vikja/state.go returns the same instant as periods of four seconds and nanoseconds
+    into the period so that nothing overflows (`Ts.key`, `Props/C16.key_order`) -/
+def Ts.instant (t : Ts) : Int × Int := (t.secs + t.nanos / 1000000000, t.nanos % 1000000000)
+
+/-- what `instant` in modules/vikja/state.go computes: `period, rest := sec>>2, sec&3+q; period += rest>>2; rest &= 3;
+    return period, rest*1e9 + nanos` (shifts and masks of two's-complement integers are floor division and remainder) -/
+def Ts.key (t : Ts) : Int × Int :=
   let q := t.nanos / 1000000000
-  let s := if 0 < q ∧ t.secs > 9223372036854775807 - q then 9223372036854775807
-           else if q < 0 ∧ t.secs < -9223372036854775808 - q then -9223372036854775808
-           else t.secs + q
-  (s, t.nanos % 1000000000)
+  let rest := t.secs % 4 + q
+  (t.secs / 4 + rest / 4, (rest % 4) * 1000000000 + t.nanos % 1000000000)
 
 /-- the order of two client timestamps: that of their instants (`older` in modules/vikja/state.go; before the repair F43
     the code compared `time.Time` values, which wrap for seconds near the top of the int64 range; between F43 and its
-    correction it compared the fields as they are, which is another order when a nanos field is not normalised) -/
+    corrections it compared the fields as they are, which is another order when a nanos field is not normalised, then
+    saturated the seconds, which is another order at the two ends of the range) -/
 def Ts.before (a b : Ts) : Bool :=
   a.instant.1 < b.instant.1 || (a.instant.1 == b.instant.1 && a.instant.2 < b.instant.2)
 
